@@ -25,6 +25,23 @@ PROPS["C11"].update({
 })
 
 # properties that are deliberately not claimed, with the reason (others not yet in PROPS are "not built yet")
+PROPS["C08"] = {
+    "modules": ["OxiaVerif.Props.C08"],
+    "facts": ["writeHoldsAppendLockAcrossAllocAndAppend", "writeChecksLeaderStatusBeforeAlloc", "trackerCommitsAtRequiredAcks",
+              "walRejectsNonContiguousOffsets", "walSyncCallbacksOnlyForFlushedEntries"],
+    "trusted_base": [KERNEL, EXTRACT, CORR,
+                     "Go mutexes/atomics: the tracker's methods are modelled as atomic events (each runs under q.Lock); the write pipeline as events write / sync / ack / newCursor",
+                     "the WAL's group commit is tied by a regenerated fact about the order of the steps in runSync, not run under a race"],
+    "assumptions": ["acknowledgements of one cursor arrive in offset order (duplicates and re-deliveries allowed) and only for entries at or below the tracker's head; the head advances one entry at a time (ValidEv)",
+                    "2 <= RF <= 17 for the quorum theorem (util.BitSet has 16 bits); RF = 1 commits with the head advance",
+                    "the follower cursors, the network and the followers themselves are not part of this model (C03)"],
+    "rule": "tracker scripts on the real server.QuorumAckTracker (RF 1-17, recovered head/commit, 5-45 events: head advances with the sync callback's wait registration, cursor attachments at any offset, in-order acks with duplicates, NextOffset); a fifth of the cases leaves the protocol on purpose (gaps, acks beyond the head, head jumps, unordered waits) and is compared with the model only. Pipeline cases: 2-16 goroutines x 20-170 writes on a real standalone leader controller (WAL with and without fsync group commit); oracle: no write fails, version ids contiguous, every response is the response to the caller's own request, commit = head at the end. Oracle for tracker cases: commit recomputed from the per-cursor acked vector, monotone, never past the head; waits complete once, only when committed, in offset order.",
+    "level_text": "Machine-checked proof (Lean 4), for every valid run of the tracker (any interleaving of head advances, cursor attachments at any offset, acknowledgements across cursors with duplicates, waits), RF 2..17: the commit offset never moves backwards (stepwise theorem), never passes the head, every offset above the recovered commit offset and at or below it is acknowledged by at least RF/2 distinct cursors, and the next one is not - so it equals the highest quorum-acknowledged prefix; the bitset never overflows. Proved with a ghost 'acked up to' vector and an invariant tying each tracked entry's cursor set to it (the quorum reaches entries in offset order). Waiting writes: completed plus waiting is always a permutation of the registered callbacks (unconditional), completions are a prefix of the waiting list at or below the commit offset. Pipeline: with allocation and append in one critical section (fact) no append is rejected and the WAL receives head+1, head+2, ... for every interleaving; proved counterexample for the split version (D-1). Tied to the code by five regenerated facts and differential runs.",
+    "level_note": "Trusted: Lean kernel; extractor rules (append lock, required acks, commit store before completions, WAL offset check, runSync step order); Go runtime. Assumed: in-order acks at or below the head. Not modelled: follower side, network. Fixed D-1 (concurrent writers rejected, leader stuck). Observation D-33 (ack overtaking the head advance is dropped) documented, not claimed.",
+    "technique": "Lean 4 proof (ghost-state invariant, event-fold induction) + regenerated facts + differential correspondence",
+    "design_ref": "DESIGN.md section 6 C08",
+}
+
 PROPS["C20"] = {
     "modules": ["OxiaVerif.Props.C20"],
     "facts": ["batcherRearmsTimerAfterSplit", "multiShardGetReturnsAfterError", "readBatchFreshResponsePerAttempt", "writeBatchHandlePositional"],
